@@ -230,6 +230,43 @@ func init() {
 		return vx.RunSched(c, sc, nil)
 	}})
 
+	// UDP mode through client.RouteUDP on loopback sockets (free-running): the datagram service behind
+	// the server also sends empty datagrams; every record on the wire must still be well formed
+	vx.Register(&vx.Scenario{Name: "wire.udp", Prop: "C10", Run: func(c *vx.Ctx) *vx.Report {
+		rep := &vx.Report{Job: c.Job, Engine: "enum", Outcomes: map[string]int64{}, Exhaustive: true}
+		for _, singleplex := range []bool{false, true} {
+			for _, m := range []string{"plain", "aes-256-gcm", "chacha20-poly1305"} {
+				for _, empty := range []bool{false, true} {
+					msg, r := udpRouteRun(singleplex, m, 2, []int{1, 700}, "round-robin", empty)
+					rep.Executions++
+					if msg == "" && !empty {
+						msg = ""
+					}
+					pairs := map[string]bool{}
+					for _, t := range r.net.Tap {
+						if strings.HasPrefix(t.Conn, "server:443#") {
+							pairs[t.Conn] = true
+							rep.Transitions++
+						}
+					}
+					for pair := range pairs {
+						if w := checkWire(r, pair, "example.com"); w != "" && msg == "" {
+							msg = fmt.Sprintf("connection %s: %s", pair, w)
+						}
+					}
+					if msg != "" {
+						rep.Violations = append(rep.Violations, vx.Violation{Clause: "well-formed-tls-stream", Sig: vx.Sig(c.Job, "well-formed-tls-stream"), Msg: fmt.Sprintf("udp mode singleplex=%v method=%s empty-datagrams=%v: %s", singleplex, m, empty, msg)})
+						rep.Exhaustive = false
+					}
+					rep.Outcomes[fmt.Sprintf("singleplex=%v empty=%v conns=%d", singleplex, empty, len(pairs))]++
+				}
+			}
+		}
+		rep.States = rep.Executions
+		rep.Samples = append(rep.Samples, "RouteUDP -> unordered session -> datagram service answering with empty and non-empty datagrams")
+		return rep
+	}})
+
 	vx.RegisterJobs("C10", func(tier string) []vx.Job {
 		q := tier == "quick"
 		var jobs []vx.Job
@@ -246,6 +283,7 @@ func init() {
 			add(0, "browser", br, "servername", strings.Repeat("a", 60)+".example.org", "unordered", "1")
 			add(0, "browser", br, "sizes", "16132,16133,32265", "numconn", "3")
 		}
+		jobs = append(jobs, vx.Job{Scenario: "wire.udp", Weight: 6})
 		add(map[bool]int{true: 1, false: 2}[q], "browser", "firefox", "sizes", "1", "numconn", "1", "ending", "client-close")
 		add(map[bool]int{true: 1, false: 2}[q], "browser", "firefox", "sizes", "1", "numconn", "1", "ending", "server-close")
 		return jobs
